@@ -232,6 +232,11 @@ impl BlockData {
         }
 
         match self.last_slice {
+            // a slice beyond the one now declared last was signed as well:
+            // contradictory last-slice markers, whichever of the two arrives first
+            None if is_last && self.commitment_cache.keys().any(|&ind| ind > slice_index) => {
+                return Err(AddShredError::Equivocation);
+            }
             None if is_last => self.mark_last_slice(slice_index),
             None => {}
             Some(l) => {
